@@ -157,4 +157,70 @@ theorem findLocalModules_sound (env : Env) (root : Mod) (name : String) (r : TdR
     | head => exact Or.inl hstar
     | tail _ hm => cases hm
 
+/-! ## Built-in names -/
+
+theorem builtin_agree (n : String) : (builtin? n).isSome = builtinNames.contains n := by
+  unfold builtin? builtinTable builtinNames
+  simp only [Option.isSome_map, List.find?, List.contains_cons, List.contains_nil, Bool.or_false]
+  by_cases h0 : n = "int8"
+  · subst h0; decide
+  by_cases h1 : n = "int16"
+  · subst h1; decide
+  by_cases h2 : n = "int32"
+  · subst h2; decide
+  by_cases h3 : n = "int64"
+  · subst h3; decide
+  by_cases h4 : n = "uint8"
+  · subst h4; decide
+  by_cases h5 : n = "uint16"
+  · subst h5; decide
+  by_cases h6 : n = "uint32"
+  · subst h6; decide
+  by_cases h7 : n = "uint64"
+  · subst h7; decide
+  by_cases h8 : n = "decimal64"
+  · subst h8; decide
+  by_cases h9 : n = "string"
+  · subst h9; decide
+  by_cases h10 : n = "boolean"
+  · subst h10; decide
+  by_cases h11 : n = "enumeration"
+  · subst h11; decide
+  by_cases h12 : n = "bits"
+  · subst h12; decide
+  by_cases h13 : n = "binary"
+  · subst h13; decide
+  by_cases h14 : n = "leafref"
+  · subst h14; decide
+  by_cases h15 : n = "identityref"
+  · subst h15; decide
+  by_cases h16 : n = "empty"
+  · subst h16; decide
+  by_cases h17 : n = "union"
+  · subst h17; decide
+  by_cases h18 : n = "instance-identifier"
+  · subst h18; decide
+  simp only [beq_false_of_ne (Ne.symm h0), beq_false_of_ne h0, beq_false_of_ne (Ne.symm h1), beq_false_of_ne h1, beq_false_of_ne (Ne.symm h2), beq_false_of_ne h2, beq_false_of_ne (Ne.symm h3), beq_false_of_ne h3, beq_false_of_ne (Ne.symm h4), beq_false_of_ne h4, beq_false_of_ne (Ne.symm h5), beq_false_of_ne h5, beq_false_of_ne (Ne.symm h6), beq_false_of_ne h6, beq_false_of_ne (Ne.symm h7), beq_false_of_ne h7, beq_false_of_ne (Ne.symm h8), beq_false_of_ne h8, beq_false_of_ne (Ne.symm h9), beq_false_of_ne h9, beq_false_of_ne (Ne.symm h10), beq_false_of_ne h10, beq_false_of_ne (Ne.symm h11), beq_false_of_ne h11, beq_false_of_ne (Ne.symm h12), beq_false_of_ne h12, beq_false_of_ne (Ne.symm h13), beq_false_of_ne h13, beq_false_of_ne (Ne.symm h14), beq_false_of_ne h14, beq_false_of_ne (Ne.symm h15), beq_false_of_ne h15, beq_false_of_ne (Ne.symm h16), beq_false_of_ne h16, beq_false_of_ne (Ne.symm h17), beq_false_of_ne h17, beq_false_of_ne (Ne.symm h18), beq_false_of_ne h18]
+  rfl
+
+theorem builtin_none {n : String} (h : builtin? n = none) : builtinNames.contains n = false := by
+  rw [← builtin_agree, h]; rfl
+
+theorem builtin_some {n : String} {y : YType} (h : builtin? n = some y) : builtinNames.contains n = true := by
+  rw [← builtin_agree, h]; rfl
+
+/-- The YangType of a built-in: its own root, named and of the kind of the built-in. -/
+theorem builtin_shape {n : String} {y : YType} (h : builtin? n = some y) :
+    y.name = n ∧ y.kind = n ∧ y.root = none ∧ y.units = "" ∧ y.hasDefault = false ∧ y.default = "" ∧
+    y.path = "" ∧ y.pattern = [] ∧ y.enum = none ∧ y.bit = none ∧ y.members = [] ∧ y.fractionDigits = 0 := by
+  unfold builtin? at h
+  rw [Option.map_eq_some_iff] at h
+  obtain ⟨⟨n', r⟩, hf, hy⟩ := h
+  have hn : n' = n := by
+    have := List.find?_some hf
+    simpa using this
+  subst hy
+  subst hn
+  exact ⟨rfl, rfl, rfl, rfl, rfl, rfl, rfl, rfl, rfl, rfl, rfl, rfl⟩
+
 end Goyang.Lemmas.Types
